@@ -624,8 +624,13 @@ class Explorer:
                 what = "deadlock" if r.deadlock else "nontermination"
                 self._violation(f"{what}:{case['component']}:{op_names(case)}", case, r.trace,
                                 f"{what}: threads {r.stuck} unfinished and none schedulable "
-                                f"(lock holder: {r.ctx['lock'].owner!r}) after schedule {r.trace}"
+                                f"(lock holder: {r.ctx['lock'].owner!r}"
+                                + ("; a thread is blocked on a lock that is not the object's original one" if r.hung else "")
+                                + f") after schedule {r.trace}"
                                 if r.deadlock else f"step bound exceeded after {len(r.trace)} steps")
+                if r.hung:
+                    self.hangs = getattr(self, "hangs", 0) + 1
+                    return True if self.hangs >= 2 else None     # each hang costs sched.HANG_S seconds: stop this program
                 self._validate(case, r)
                 return None
             outcome = freeze((r.results, final_state(case, obj)))
